@@ -171,8 +171,8 @@ def _need(cols):
 
 def ch_target(W, t, info):
     b = W.pick(t, "baits", "targets", label="target.arg")
-    return [b], {"short": t.chance(1, 2, "target.short"), "split": t.chance(1, 2, "target.split"),
-                 "avg": t.choice([266.67, 100, 400], "target.avg")}
+    return [b], {"short": t.chance(2, 3, "target.short"), "split": t.chance(2, 3, "target.split"),
+                 "avg": t.choice([266.67, 100, 400, 1000], "target.avg")}
 
 
 def run_target(o, p, procs):
@@ -685,7 +685,7 @@ def run_variants(o, p, procs):
 
 OPS = {
     # name: (choose, run, kind of the result when it re-enters the world, weight, stochastic?)
-    "target": (ch_target, run_target, "targets", 3, False),
+    "target": (ch_target, run_target, "targets", 5, False),
     "antitarget": (ch_antitarget, run_antitarget, "antitargets", 3, False),
     "fix": (ch_fix, run_fix, "cnr", 4, True),
     "segment": (ch_segment, run_segment, "cns", 6, True),
@@ -1138,6 +1138,7 @@ def _choose_write(W, tape, writes):
     fmt = "tab" if via_cli else tape.weighted(
         [("tab", 5), ("bed", 1), ("bed3", 1), ("bed4", 1), ("interval", 1), ("text", 1), ("seg", 1)], "wr.fmt")
     return ents, {"name": name, "prepop": prepop, "cli": via_cli, "fmt": fmt,
+                  "relative": tape.chance(1, 4, "wr.relative"),
                   "sweep": tape.chance(1, 2, "wr.sweep"), "times": tape.weighted(
         [(1, 3), (2, 2), (3, 2), (5, 1)], "wr.times")}
 
@@ -1173,6 +1174,14 @@ def check_w1(before, after, relname, new_bytes=None):
 
 
 def _do_write_step(W, ents, params, writes, ctx, simfs, D):
+    cwd0 = os.getcwd()
+    try:
+        return _do_write_step_inner(W, ents, params, writes, ctx, simfs, D)
+    finally:
+        os.chdir(cwd0)
+
+
+def _do_write_step_inner(W, ents, params, writes, ctx, simfs, D):
     from cnvlib import core
     from skgenome import tabio
 
@@ -1186,6 +1195,11 @@ def _do_write_step(W, ents, params, writes, ctx, simfs, D):
             prepopulate(os.path.dirname(path), os.path.basename(name), params["prepop"])
     first = simfs.snapshot_dir(root)
     argv = None
+    if params.get("relative"):
+        # hand the SUT the path relative to the working directory
+        os.chdir(root)
+        path = name
+        ctx.probe("write.relative_path")
     if params.get("cli"):
         from cnvlib import commands
         indir = os.path.join(os.path.dirname(root), "cli-in")
@@ -1300,6 +1314,15 @@ def run_w2(tape, tier, opts):
     points = 0
     explored = []
 
+    relative = bool(scen.get("relative"))
+
+    def target(root):
+        # relative scenario: the SUT is handed the bare name, with `root` as the working directory
+        if relative:
+            os.chdir(root)
+            return name
+        return os.path.join(root, name)
+
     def setup(tag):
         root = os.path.join(base_tmp, tag)
         os.makedirs(root)
@@ -1309,15 +1332,15 @@ def run_w2(tape, tier, opts):
             prepopulate(d, os.path.basename(name), scen["prepop"])
         fs.enabled = False
         for _ in range(scen["writes"] - 1):
-            core.ensure_path(os.path.join(root, name))
-            tabio.write(cna, os.path.join(root, name))
+            core.ensure_path(target(root))
+            tabio.write(cna, target(root))
         fs.enabled = True
         return root
 
     def one_write(root):
         fs.reset_counter()
-        core.ensure_path(os.path.join(root, name))
-        tabio.write(cna, os.path.join(root, name))
+        core.ensure_path(target(root))
+        tabio.write(cna, target(root))
 
     try:
         # reference execution: count the interposed calls of the k-th write
@@ -1371,8 +1394,8 @@ def run_w2(tape, tier, opts):
             # fault left behind treated as pre-existing
             fs.enabled = False
             try:
-                core.ensure_path(os.path.join(root, name))
-                tabio.write(cna, os.path.join(root, name))
+                core.ensure_path(target(root))
+                tabio.write(cna, target(root))
             except Exception as exc:  # noqa: BLE001
                 raise Violation("W2", "C10/W2/restart",
                                 f"scenario {scen}: after {fault} at call #{n} the restarted write raised "
@@ -1393,6 +1416,7 @@ def run_w2(tape, tier, opts):
             res["opts"] = {"mode": "w2", "scenario": scen, "only": [n, list(fault)]}
             res["no_shrink"] = True
     finally:
+        os.chdir("/")
         core.os, tabio_mod.os = orig[0], orig[1]
         if orig[2] is None:
             try:
@@ -1460,6 +1484,12 @@ def w2_scenarios(tier):
         for k in range(1, kmax + 1):
             for name in (["out.cnn", "sub/dir/out.cnn"] if k == 1 else ["out.cnn"]):
                 scen.append({"prepop": prepop, "writes": k, "name": name})
+    # the same through relative paths (bare file name in the working directory: ensure_path's
+    # "no directory component" branch; and a relative sub-directory)
+    for prepop in ("none", "one", "gap"):
+        for k in (1, 2):
+            for name in (["out.cnn", "sub/out.cnn"] if k == 1 else ["out.cnn"]):
+                scen.append({"prepop": prepop, "writes": k, "name": name, "relative": True})
     return scen
 
 
